@@ -25,6 +25,26 @@ pub fn point(id: &'static str) {
     }
 }
 
+static NOTE_HOOK: AtomicUsize = AtomicUsize::new(0);
+
+/// Installs (or with `None` removes) the process-wide note hook.
+pub fn set_note_hook(hook: Option<fn(&'static str, &str)>) {
+    NOTE_HOOK.store(hook.map_or(0, |f| f as usize), Ordering::SeqCst);
+}
+
+/// A note: tells a harness a fact about the operation that follows which it cannot see from the yield points alone
+/// (e.g. which key's bucket a drain pass is about to clear). Not a yield point: nothing ever parks here. With no hook
+/// installed a note is a single relaxed load.
+#[inline]
+pub fn note(id: &'static str, what: &str) {
+    let raw = NOTE_HOOK.load(Ordering::Relaxed);
+    if raw != 0 {
+        // SAFETY: the only non-zero values ever stored are `fn(&'static str, &str)` pointers.
+        let hook: fn(&'static str, &str) = unsafe { std::mem::transmute(raw) };
+        hook(id, what);
+    }
+}
+
 /// A fresh, private instance of the cell type that holds the global recorder, so that installation
 /// races can be exercised any number of times in one process.
 #[derive(Debug)]
